@@ -15,7 +15,11 @@ RULE = (
     "classified by the independent oracle with margins: robustly feasible (all margins >= tau) => checker must "
     "accept; robustly infeasible (discrete fault or margin <= -10 tau) for the constraint kinds the property lists "
     "=> checker must raise; otherwise don't-care. Improvement envs: rec_best corruptions (two cycles, repeated "
-    "successor, delivery before pickup). Non-trivial = robustly infeasible corrupted candidate; distinct hash."
+    "successor, two nodes exchanged in the tour => delivery before pickup) on the reset state of one row and on batches of 2-4 rows after 1-4 random moves "
+    "(k_max 2-4) with exactly one corrupted row. Every classified candidate is checked against the reset tensordict, a "
+    "re-used tensordict and the FINAL tensordict of the rollout (the td the library hands to get_reward): same verdict "
+    "required; all-feasible batches also through env.get_reward(final td, actions) with check_solution=True. "
+    "Non-trivial = robustly infeasible corrupted candidate; distinct hash."
 )
 ASSUMPTIONS = [
     "each candidate is checked as a batch of one (checkers assert over the whole batch); in addition the complete "
@@ -153,6 +157,17 @@ def execute(case, ctx):
             n_used += 1
             if n_used >= 2:
                 ctx.event("reused_td_checks")
+            # the library reaches the checker through env.get_reward(td, actions) with the FINAL td of the decoding loop
+            # (visited / used_capacity / current_time ... all consumed by the episode), not with the reset td: a checker
+            # judges the instance data and the actions, so its verdict on the final rollout state of this instance must
+            # be its verdict on the reset state
+            raised_final = run_checker(env, ep.td[b:b + 1], cand)
+            ctx.event("final_td_checks")
+            if (raised is None) != (raised_final is None):
+                ctx.violation(f"{name}|{sl}|checker_verdict_depends_on_rollout_state|{cls}",
+                              f"checker says {raised or 'valid'} given the reset tensordict but {raised_final or 'valid'} given "
+                              f"the final tensordict of the rollout of the same instance: {cand} ({cls} by the oracle)",
+                              {**det, "raised_final_td": raised_final, "rollout_actions": A[b].tolist()})
             if cls == "feasible" and raised is not None:
                 ctx.violation(f"{name}|{sl}|checker_rejects_feasible|{op}", f"checker raised {raised} on a feasible solution {cand}", det)
             if cls == "infeasible":
@@ -193,6 +208,21 @@ def execute(case, ctx):
                 ctx.violation(f"{name}|{sl}|checker_rejects_feasible|batch",
                               f"checker raised {raised} on a batch of {B} feasible mask-generated solutions (each accepted alone)",
                               {"actions": A.tolist(), "instances": insts})
+            # the library route itself: get_reward(final td of the rollout, actions) with check_solution=True (MTVRPEnv
+            # is built with check_solution=False in vf.envs: its checker is called on the final td directly)
+            try:
+                if getattr(env, "check_solution", False):
+                    env.get_reward(ep.td.clone(), A.clone())
+                else:
+                    env.check_solution_validity(ep.td.clone(), A.clone())
+                raised_lib = None
+            except Exception as e:
+                raised_lib = type(e).__name__
+            ctx.event("batch:all_feasible|get_reward(final td)")
+            if raised_lib is not None:
+                ctx.violation(f"{name}|{sl}|checker_rejects_feasible|batch|final_td",
+                              f"get_reward(final td, actions) with check_solution=True raised {raised_lib} on a batch of {B} "
+                              "feasible mask-generated solutions", {"actions": A.tolist(), "instances": insts})
             # one corrupted row
             T = A.shape[1]
             for (op, i, j) in case["ops"][1:]:
@@ -220,6 +250,16 @@ def execute(case, ctx):
                     ctx.violation(f"{name}|{sl}|checker_accepts_infeasible|batch|{robust[0]}",
                                   f"checker accepted a batch whose row {b} violates {v.viol[:2]} (that row alone is rejected)",
                                   {"row": b, "candidate": cand, "actions": A2.tolist()})
+                try:  # same batch, final rollout td
+                    env.check_solution_validity(ep.td.clone(), A2.clone())
+                    raised_f = None
+                except Exception as e:
+                    raised_f = type(e).__name__
+                if (raised is None) != (raised_f is None):
+                    ctx.violation(f"{name}|{sl}|checker_verdict_depends_on_rollout_state|batch",
+                                  f"batch with one infeasible row ({robust[0]}): {raised or 'valid'} given the reset td, "
+                                  f"{raised_f or 'valid'} given the final td of the rollout",
+                                  {"row": b, "candidate": cand, "actions": A2.tolist()})
                 break
     ctx.sample({"env": name, "cfg": cfg, "ops": case["ops"], "actions_row0": A[0].tolist()})
 
@@ -237,13 +277,24 @@ def cases(tier):
 
 # ---------------------------------------------------------------- improvement envs: rec_best corruptions
 def execute_improvement(case, ctx):
+    """rec_best corruptions judged on (i) the reset state of a one-row batch (B=1, moves=0: the original domain) and (ii)
+    batches of 2-4 rows after a few moves of the env's own random-move sampler (k_max 2-4 for k-opt), with exactly ONE
+    row corrupted: the checker asserts over the whole batch, whichever row holds the fault."""
     from rl4co.envs import PDPRuinRepairEnv, TSPkoptEnv
 
     n, kind = case["n"], case["env"]
+    B, moves, k = int(case.get("B", 1)), int(case.get("moves", 0)), int(case.get("k", 2))
     torch.manual_seed(case["seed"])
-    env = TSPkoptEnv(generator_params=dict(num_loc=n)) if kind == "tsp_kopt" else PDPRuinRepairEnv(generator_params=dict(num_loc=n))
-    td = env.reset(batch_size=[1])
-    rec = td["rec_best"][0].tolist()
+    env = TSPkoptEnv(generator_params=dict(num_loc=n), k_max=k) if kind == "tsp_kopt" else PDPRuinRepairEnv(generator_params=dict(num_loc=n))
+    td = ctx.guard(env.reset, batch_size=[B], what=f"reset|{kind}")
+    for _ in range(moves):
+        def one(td=td):
+            env._random_action(td)
+            return env.step(td)["next"]
+        td = ctx.guard(one, what=f"random_move|{kind}")
+    row = int(case.get("row", 0)) % B
+    recs = td["rec_best"].tolist()
+    rec = recs[row]
     N = len(rec)
 
     def tour_ok(succ):
@@ -263,6 +314,9 @@ def execute_improvement(case, ctx):
         half = (N - 1) // 2
         return all(order[p] < order[p + half] for p in range(1, half + 1))
 
+    def ok(succ):
+        return tour_ok(succ) and (kind != "pdp_rr" or pdp_ok(succ))
+
     cand = list(rec)
     i, j = case["i"] % N, case["j"] % N
     if case["fault"] == "two_cycles" and N >= 4:
@@ -270,33 +324,64 @@ def execute_improvement(case, ctx):
         cand[i], cand[j] = cand[j], cand[i]
     elif case["fault"] == "repeat":
         cand[i] = cand[j]
+    elif case["fault"] == "swap_nodes" and tour_ok(rec) and N >= 3:
+        # two non-depot nodes exchange their places in the tour: still one cycle; for PDP a pickup may now come after
+        # its delivery (the precedence fault the property names)
+        seq, cur = [0], 0
+        for _ in range(N - 1):
+            cur = rec[cur]
+            seq.append(cur)
+        a, b2 = 1 + i % (N - 1), 1 + j % (N - 1)
+        seq[a], seq[b2] = seq[b2], seq[a]
+        for x in range(N):
+            cand[seq[x]] = seq[(x + 1) % N]
     elif case["fault"] == "none":
         pass
-    valid = tour_ok(cand) and (kind != "pdp_rr" or pdp_ok(cand))
+    others_ok = all(ok(r) for x, r in enumerate(recs) if x != row)
+    valid = ok(cand)
     td2 = td.clone()
-    td2["rec_best"] = torch.tensor([cand], dtype=td["rec_best"].dtype)
+    rb = td["rec_best"].clone()
+    rb[row] = torch.tensor(cand, dtype=rb.dtype)
+    td2["rec_best"] = rb
     try:
         env.check_solution_validity(td2, None)
         raised = None
     except Exception as e:
         raised = type(e).__name__
-    det = {"rec_best": cand, "orig": rec, "raised": raised}
+    det = {"rec_best": cand, "orig": rec, "raised": raised, "row": row, "B": B, "moves": moves, "all_rec_best": recs}
+    tag = "" if (B == 1 and moves == 0) else "|batch_after_moves"
     ctx.event(f"{kind}:{'valid' if valid else 'invalid'}:{case['fault']}")
+    ctx.event(f"{kind}:B={B}|moves={'0' if moves == 0 else '>=1'}" + (f"|k={k}" if kind == "tsp_kopt" else ""))
+    if not others_ok:
+        ctx.event("uncorrupted_row_invalid(C09 territory)")
+        return
     if valid and raised is not None:
-        ctx.violation(f"{kind}||checker_rejects_feasible", f"checker raised {raised} on a valid tour", det)
+        ctx.violation(f"{kind}||checker_rejects_feasible{tag}", f"checker raised {raised} on a batch of valid tours", det)
     if not valid:
         perm = sorted(cand) == list(range(N))
         reason = "delivery_before_pickup" if (perm and tour_ok(cand)) else ("not_single_cycle" if perm else "repeated_successor")
         if raised is None:
-            ctx.violation(f"{kind}||checker_accepts_infeasible|{reason}", f"checker accepted rec_best {cand} ({reason})", det)
+            ctx.violation(f"{kind}||checker_accepts_infeasible|{reason}{tag}",
+                          f"checker accepted rec_best {cand} ({reason}) in row {row} of a batch of {B} after {moves} moves", det)
+        if B >= 2 and row >= 1:
+            ctx.event("corrupted_row>=1_of_batch")
         ctx.nontriv()
 
 
 def improvement_cases(tier):
-    return st.fixed_dictionaries({
-        "env": st.sampled_from(["tsp_kopt", "pdp_rr"]), "n": st.integers(2, 6).map(lambda k: 2 * k),
-        "seed": st.integers(0, 2 ** 20), "fault": st.sampled_from(["two_cycles", "repeat", "none", "two_cycles"]),
-        "i": st.integers(0, 40), "j": st.integers(0, 40)})
+    @st.composite
+    def c(draw):
+        case = {"env": draw(st.sampled_from(["tsp_kopt", "pdp_rr"])), "n": 2 * draw(st.integers(2, 6)),
+                "seed": draw(st.integers(0, 2 ** 20)),
+                "fault": draw(st.sampled_from(["two_cycles", "repeat", "none", "two_cycles", "swap_nodes"])),
+                "i": draw(st.integers(0, 40)), "j": draw(st.integers(0, 40))}
+        if draw(st.integers(0, 2)) > 0:  # two thirds: batches after a few moves, one corrupted row
+            case.update(B=draw(st.integers(2, 4)), moves=draw(st.integers(1, 4)), row=draw(st.integers(0, 3)))
+            if case["env"] == "tsp_kopt":
+                case["k"] = draw(st.sampled_from([2, 2, 3, 4]))
+                case["n"] = max(case["n"], 2 * case["k"] + 2)
+        return case
+    return c()
 
 
 SUBS = [
